@@ -261,6 +261,8 @@ func runC16(ctx *Ctx) *Report {
 		"- a\n  - ..\n",
 		"- a\n  - x/y\n",
 		"* Makefile\n* src\n    * main.go\n    * lib\n",
+		"- ok\n  - x\n- second\n  - y\n- bad\n      - deep\n- after\n",
+		"- ok\n  - x.go\n- bad\n  -\n",
 	}
 	if ctx.Thorough {
 		for _, f := range forestsUpTo(3, []string{"a", "b.go"}) {
@@ -303,6 +305,9 @@ func runC16(ctx *Ctx) *Report {
 		cases = append(cases,
 			cliCase{Kind: "cli", Sub: sub, Args: []string{"stray"}, Doc: d0, Stdout: "pipe", Expect: "usage"},
 			cliCase{Kind: "cli", Sub: sub, Args: []string{"--no-such-flag"}, Doc: d0, Stdout: "pipe", Expect: "usage"},
+			cliCase{Kind: "cli", Sub: sub, Args: []string{""}, Doc: d0, Stdout: "pipe", Expect: "usage"},
+			cliCase{Kind: "cli", Sub: sub, Args: []string{"", "--no-such-flag"}, Doc: d0, Stdout: "pipe", Expect: "usage"},
+			cliCase{Kind: "cli", Sub: sub, Args: []string{" "}, Doc: d0, Stdout: "pipe", Expect: "usage"},
 			cliCase{Kind: "cli", Sub: sub, Args: []string{"--file", "/nonexistent/x.md"}, Doc: d0, Stdout: "pipe", Expect: "open"},
 		)
 	}
